@@ -461,6 +461,12 @@ def gen_meta(r, cid, big=False):
     events = []
     nev = r.randint(14, 40)
     p_restart = r.choice([0.0, 0.04, 0.1])
+    # a walker is KILLED (no final output, no state file of its last step) and started again from its last checkpoint, which is
+    # older than what the others have read of it: its hills after the checkpoint are a lost timeline
+    p_kill = r.choice([0.0, 0.0, 0.06, 0.12])
+    if p_kill:
+        nev += 20
+        restartfreq = [x if x else r.choice([2, 3, 4, 5]) for x in restartfreq]
 
     def do_step(w):
         b = nextbin[w]
@@ -479,6 +485,10 @@ def gen_meta(r, cid, big=False):
                 w = r.randrange(n)
                 events.append(["r", w, r.random() < 0.5])
                 events.append(["s", w, lastbin[w]])      # the repeated first step of the new run
+            if p_kill and r.random() < p_kill * n:
+                w = r.randrange(n)
+                events.append(["k", w])
+                events.append(["s", w, lastbin[w]])
                 # the others repeat nothing; the restarted walker is one engine step behind in wall-clock only
     else:
         cur = 0
@@ -491,17 +501,32 @@ def gen_meta(r, cid, big=False):
             if started[w] and r.random() < p_restart:
                 events.append(["r", w, r.random() < 0.5])
                 events.append(["s", w, lastbin[w]])
+            elif started[w] and p_kill and r.random() < p_kill:
+                events.append(["k", w])
+                events.append(["s", w, lastbin[w]])
             else:
                 do_step(w)
-    szd = r.random() < 0.2
+    szd = r.random() < 0.2 and not p_kill
     if szd:
         events = no_zero_length_runs(events, {"s": (lambda e: e[1], "step"), "r": (lambda e: e[1], "restart")})
-    return {"kind": "meta", "id": cid, "n": n, "nbins": NB, "hillfreq": hillfreq, "upfreq": upfreq,
+    case = {"kind": "meta", "id": cid, "n": n, "nbins": NB, "hillfreq": hillfreq, "upfreq": upfreq,
             "restartfreq": restartfreq, "lockstep": lock, "grids": r.random() < 0.7, "szd": szd,
             # no replicaID keyword: the name comes from the replica interface of the engine (its replica index)
             "idfromcomm": r.random() < 0.25, "step0": S0,
             # a restarted walker continues with a configuration that legally differs from the one that wrote its state
             "conf2": ({"hillfreq": r.choice([1, 2, 3]), "upfreq": r.choice([1, 2, 3, 5])} if r.random() < 0.5 else None), "events": events}
+    return drop_kills_without_checkpoint(case) if p_kill else case
+
+
+def drop_kills_without_checkpoint(case):
+    """a walker can only be started again from a checkpoint it has written (under its current output prefix)"""
+    while True:
+        c2 = dict(case)
+        meta_primitives(c2)
+        bad = c2.get("_bad_kills", [])
+        if not bad:
+            return case
+        case = dict(case, events=[e for k, e in enumerate(case["events"]) if k != bad[0]])
 
 
 def meta_primitives(case):
@@ -521,6 +546,8 @@ def meta_primitives(case):
     prims = []
     Dafter = []
     state_n = [0] * n           # how many hills the state file of each walker holds
+    ck = [None] * n             # step of the last checkpoint the walker wrote under its current output prefix
+    case["_bad_kills"] = []
     case["_state_n_after"] = []
     for ev in case["events"]:
         w = ev[1]
@@ -543,6 +570,21 @@ def meta_primitives(case):
             if rf > 0 and (not rel0) and nt % rf == 0:
                 p.append(("wstate", w, nt))
                 state_n[w] = len(D[w])
+                ck[w] = nt
+        elif ev[0] == "k":
+            if ck[w] is None:
+                case["_bad_kills"].append(len(prims))
+            else:
+                # killed: what it deposited after its last checkpoint never happened; started again from that checkpoint
+                # (setup_output writes the state file of that step again and restarts the hills file)
+                S = ck[w]
+                D[w] = [(it, b) for (it, b) in D[w] if it <= S]
+                p.append(("rollback", w, S))
+                p.append(("setup", w, S, False))
+                t[w] = S
+                state_n[w] = len(D[w])
+                first[w] = True
+                second[w] = True
         else:
             p.append(("wstate", w, t[w]))
             p.append(("rrestart", w))
@@ -550,6 +592,7 @@ def meta_primitives(case):
             state_n[w] = len(D[w])
             first[w] = True
             second[w] = True
+            ck[w] = None if ev[2] else t[w]      # (the end-of-run output wrote <prefix>.colvars.state; a new prefix has none yet)
         prims.append(p)
         Dafter.append([list(x) for x in D])
         case["_state_n_after"].append(list(state_n))
@@ -634,6 +677,9 @@ def check_meta(run, exe, model, cases, scratch, fixflags="1 1"):
         run.dist("meta:lockstep" if c["lockstep"] else "meta:async")
         nrest = sum(1 for e in c["events"] if e[0] == "r")
         run.dist("meta:restarts" if nrest else "meta:no-restart")
+        nkill = sum(1 for e in c["events"] if e[0] == "k")
+        if nkill:
+            run.dist("meta:killed-and-restarted-from-checkpoint")
         run.dist("meta:useGrids-on" if c.get("grids", True) else "meta:useGrids-off")
         if c.get("szd"):
             run.dist("meta:stepZeroData")
@@ -695,10 +741,29 @@ def check_meta(run, exe, model, cases, scratch, fixflags="1 1"):
         reclen = lens.pop() if lens else None
         stop = False
         tie_ok = True
+        # (reader, peer) -> "R": the peer was killed and rolled back, the reader has not exchanged since; "T": it has, and kept hills
+        # of the lost timeline (reported once; the full re-reading after the reader's own next state file must remove them);
+        # "X1"/"X2": the oracles of this event are the first after the roll-back / after roll-back, own state file and exchange
+        stale = {}
+        stale_ck = set()
         for k, ev in enumerate(c["events"]):
             if stop:
                 break
             w, snap, d = out[k]
+            for pr in prims[k]:
+                if pr[0] == "rollback":
+                    # the model has no lost timelines (its writers number their steps monotonically): from here on only the oracles go on
+                    tie_ok = False
+                    for rr in range(n):
+                        if rr != pr[1]:
+                            stale[(rr, pr[1])] = "R"
+                            stale_ck.discard((rr, pr[1]))
+                        stale.pop((pr[1], rr), None)                       # the restarted walker reads everybody afresh
+                elif pr[0] == "share" and pr[1] == w:
+                    for key in [x for x in stale if x[0] == w and stale[x] in ("R", "T")]:
+                        stale[key] = "X2" if key in stale_ck else "X1"
+                elif pr[0] == "wstate" and pr[1] == w:
+                    stale_ck |= set(x for x in stale if x[0] == w and stale[x] in ("R", "T", "X1"))
             if d["own"] is None:
                 run.violation("meta:no-state", "walker %d has no metadynamics bias after event %d %s (useGrids %s): %s" % (w, k, ev, "on" if c.get("grids", True) else "off", d["errtext"].strip()[:200]), {"kind": "meta", "case": c, "event": k})
                 break
@@ -721,6 +786,12 @@ def check_meta(run, exe, model, cases, scratch, fixflags="1 1"):
                 if mq is None:
                     mq = {"bad": 1}
                 Dp = Dafter[k][p]
+                lvl = stale.get((w, p))
+                if lvl in ("R", "T"):
+                    continue
+                if lvl == "X2":
+                    stale.pop((w, p))
+                lost_sig = {"X1": "meta:lost-timeline-kept", "X2": "meta:lost-timeline-kept-after-own-state-file"}.get(lvl)
                 if mir is not None:
                     cont, okint = scen.content(mir, mir.get("grid"), NB)
                     if not okint:
@@ -730,10 +801,15 @@ def check_meta(run, exe, model, cases, scratch, fixflags="1 1"):
                     # ---- prefix: no loss inside, no duplicate (implementation alone)
                     kpre = prefix_len(cont, Dp, NB)
                     if kpre is None:
-                        sig = "meta:mirror-not-a-prefix" + (":lockstep" if c["lockstep"] else ":async")
+                        sig = lost_sig or ("meta:mirror-not-a-prefix" + (":lockstep" if c["lockstep"] else ":async"))
                         run.violation(sig, "after event %d %s walker w%d holds for peer w%d hills in bins %s; the peer deposited, in order, %s "
-                                      "(upfreq %d, restartfreq %s)" % (k, ev, w, p, show(cont), [b for (_, b) in Dp], c["upfreq"], c["restartfreq"]),
+                                      "(upfreq %d, restartfreq %s)%s" % (k, ev, w, p, show(cont), [b for (_, b) in Dp], c["upfreq"], c["restartfreq"],
+                                      (" -- the peer had been killed and started again from its last checkpoint: these are the hills of the timeline that survived"
+                                       + ("; the reader has written its own state file since and exchanged again" if lvl == "X2" else "")) if lost_sig else ""),
                                       {"kind": "meta", "case": c, "event": k, "reader": w, "peer": p})
+                        if lvl == "X1":
+                            stale[(w, p)] = "T"
+                            continue
                         stop = True
                         break
                     # ---- completeness after an exchange: everything visible before this event is there
@@ -742,13 +818,18 @@ def check_meta(run, exe, model, cases, scratch, fixflags="1 1"):
                         n_state = c["_state_n_after"][k - 1][p] if k > 0 else 0
                         n_file = ((snap[p]["hills_size"] or 0) + 1) // reclen
                         if kpre < n_state + n_file:
-                            sig = "meta:visible-hills-missing" + (":lockstep" if c["lockstep"] else ":async")
+                            sig = lost_sig or ("meta:visible-hills-missing" + (":lockstep" if c["lockstep"] else ":async"))
                             run.violation(sig, "after its exchange in event %d %s walker w%d holds %d hills of peer w%d (bins %s) although the peer's "
                                           "state file (step %d, %d hills) and the %d complete records of its hills file were on disk "
                                           "(upfreq %d, restartfreq %s)" % (k, ev, w, kpre, p, show(cont), S, n_state, n_file, c["upfreq"], c["restartfreq"]),
                                           {"kind": "meta", "case": c, "event": k, "reader": w, "peer": p})
+                            if lvl == "X1":
+                                stale[(w, p)] = "T"
+                                continue
                             stop = True
                             break
+                if lvl == "X1" and stale.get((w, p)) == "X1":
+                    stale.pop((w, p))
                 # ---- tie with the model (after the first disagreement of a case only the oracles go on)
                 if not tie_ok:
                     continue
